@@ -1192,6 +1192,87 @@ func pTimeFlush(p *pipeCtx) {
 	for i := 0; i < n; i++ {
 		pTimeFlushTrickle(p, i)
 	}
+	n = p.c.pick(6, 30)
+	for i := 0; i < n; i++ {
+		pTimeAfterEarlierFlush(p, i)
+	}
+}
+
+// The clock of the time-triggered flush belongs to the rows buffered now, not to a buffer that has been flushed
+// since: a batch is buffered (generation 1), the buffer is emptied before its MaxBufferedTime is over - by a row
+// limit, by a byte limit or by an explicit Flush - and another batch arrives (generation 2) while generation 1's
+// deadline is still ahead; then nothing else happens. Generation 2 must be answered within MaxBufferedTime + one
+// tick + flush duration of its own acceptance. Repeated for a few generations. MaxBufferedTime is long enough
+// (250-400 ms) that the three steps fit inside it on a loaded machine; if they did not fit, the run only loses
+// its point (recorded as fits=false), it cannot raise an alarm.
+func pTimeAfterEarlierFlush(p *pipeCtx, idx int) {
+	rng := p.c.rng
+	o := defaultOpts()
+	o.MaxTime = time.Duration(250+rng.IntN(150)) * time.Millisecond
+	how := []string{"row-limit", "explicit-flush", "byte-limit"}[idx%3]
+	switch how {
+	case "row-limit":
+		o.MaxRows = 3
+	case "byte-limit":
+		o.MaxBytes = 700
+	}
+	r := newPRun(p.c, fmt.Sprintf("time-after-flush-%d", idx), o)
+	r.noSnap = true
+	r.start()
+	ctx := context.Background()
+	limit := o.MaxTime + 100*time.Millisecond + 900*time.Millisecond
+	answered := func(id int) bool { r.mu.Lock(); defer r.mu.Unlock(); return len(r.recvd[id]) > 0 }
+	gens := 2 + rng.IntN(2)
+	fits := true
+	lateGen, lateBy := -1, time.Duration(0)
+	for g := 0; g < gens && lateGen < 0; g++ {
+		t0 := time.Now()
+		first, err := r.ingest(ctx, "drain", simpleBatch(r, 1))
+		if err != nil {
+			break
+		}
+		time.Sleep(o.MaxTime / 8)
+		// empty the buffer before generation g's deadline
+		switch how {
+		case "row-limit":
+			r.ingest(ctx, "drain", simpleBatch(r, 2))
+		case "byte-limit":
+			r.ingest(ctx, "drain", func(id int) *pBatch { return r.makeBatch(id, []int{0}, []int{900}, -1, false) })
+		default:
+			r.flush(ctx)
+		}
+		if !waitFor(func() bool { return answered(first) }, 5*time.Second) {
+			p.c.violation("", fmt.Sprintf("run %s: batch not answered 5 s after a %s that covers it", r.name, how), nil)
+			break
+		}
+		time.Sleep(o.MaxTime / 8)
+		next, err := r.ingest(ctx, []string{"drain", "buf"}[rng.IntN(2)], simpleBatch(r, 1))
+		if err != nil {
+			break
+		}
+		at := time.Now()
+		if at.Sub(t0) >= o.MaxTime {
+			fits = false
+		}
+		// silence; observed twice so that a process frozen for a moment can catch up
+		ok := waitFor(func() bool { return answered(next) }, limit)
+		if !ok {
+			time.Sleep(150 * time.Millisecond)
+			r.pollBuffered()
+			if !answered(next) {
+				lateGen, lateBy = g, time.Since(at)
+			}
+		}
+	}
+	desc := map[string]any{"max_buffered_time_ms": o.MaxTime.Milliseconds(), "emptied_by": how, "generations": gens, "fits": fits}
+	if lateGen >= 0 {
+		p.c.violation("", fmt.Sprintf("run %s: a batch buffered after a %s emptied the buffer is still unanswered %v after it was accepted; MaxBufferedTime %v, responsive stores, no limit reached by it, no Flush/Stop after it",
+			r.name, how, lateBy.Round(time.Millisecond), o.MaxTime), desc)
+	}
+	r.stopWithDeadline(20 * time.Second)
+	res := r.finish(3*time.Second, true)
+	p.c.dist("time_after_flush", fmt.Sprintf("%s fits=%v", how, fits))
+	p.emit(r, res, pEvalOpts{props: []string{"C10"}, nontrivial: fits, kind: "time-after-flush", extra: desc})
 }
 
 // The age of the buffer is the age of its oldest batch, whatever arrives later: small batches keep arriving
